@@ -13,8 +13,10 @@ META = {
             "adds Start(pos)..End(rule,pos') cross-linked around exactly the body's tokens while a failure leaves the queue as it was, otherwise the rule adds nothing; (4) frame: no internal panic "
             "(index, splice, drain, underflow, unreachable!) in any mode incl. error detail, input/lookahead/atomicity/limit preserved, position <= |input| and monotone, snapshots balanced. "
             "The exact-token variant of (1) is refuted (C03_sequence_tag_refuted: tag_node inside a failing sequence re-tags an earlier token) and reported as a known finding. "
-            "PARTIAL: the byte-level clauses (primitives land on UTF-8 boundaries and advance by exactly the matched text; memchr search = basic search) and the equality with a reference interpreter over the naive stack are "
-            "stated in DESIGN.md and checked here only by the correspondence runs (both feature sets), until coq/Comb/Utf8.v is linked in.",
+            "(5) primitives (coq/Comb/Utf8b.v): on valid UTF-8 input at a char boundary match_string / match_insensitive / match_range / match_char_by / skip / skip_until never slice off a boundary, "
+            "advance over exactly the matched text, always to a boundary, and do not move on failure; (6) whole programs keep the position on a boundary of valid UTF-8 (no boundary panic), "
+            "and the memchr-accelerated search (as repaired by the fix: commit) equals the plain loop (exec_memchr_eq_basic; the pre-fix arm is refuted by C03_memchr_unfixed_refuted). "
+            "PARTIAL: the equality with a separately written reference interpreter over the naive stack is not a theorem yet; the contracts (1)-(6) are stated directly on the model instead.",
     "note": "Trusted: Coq kernel; extraction (ExtrOcamlBasic only); harness + dump hook; memmem/memchr iterators modelled by their specification (first / every offset of the bytes); "
             "closures restricted to the deep embedding `prog` (and_then/or_else chains, if on atomicity, named recursion).",
     "design_ref": "DESIGN.md section 3, C03",
